@@ -1433,8 +1433,22 @@ fn format_generic_parameter(
     let default_type = match (generic_parameter.equals(), generic_parameter.default_type()) {
         (Some(equals), Some(default_type)) => {
             let equals = fmt_symbol!(ctx, equals, " = ", shape);
-            let (equals, default_type) =
-                attempt_assigned_type_tactics(ctx, equals, default_type, shape);
+            let (equals, default_type) = match (generic_parameter.parameter(), default_type) {
+                // The default of a generic type pack `T... = (X)` must stay a type pack:
+                // the parentheses around a single type are not redundant here
+                (GenericParameterInfo::Variadic { .. }, TypeInfo::Tuple { types, .. })
+                    if types.len() == 1 =>
+                {
+                    let default_type = format_type_info_internal(
+                        ctx,
+                        default_type,
+                        TypeInfoContext::new().mark_within_generic(),
+                        shape,
+                    );
+                    (equals, default_type)
+                }
+                _ => attempt_assigned_type_tactics(ctx, equals, default_type, shape),
+            };
             Some((equals, default_type))
         }
         (None, None) => None,
